@@ -1,26 +1,426 @@
+// p9check is a repository-specific static analyser for hugelgupf/p9.
+//
+// It decides the structural clauses of properties C01..C20 (see /verif/DESIGN.md)
+// by loading /repo's current source with go/packages and inspecting the typed
+// syntax trees, control-flow graphs and SSA form.  Nothing from /repo is executed.
 package main
 
 import (
+	"encoding/json"
+	"flag"
 	"fmt"
-	"golang.org/x/tools/go/packages"
-	"golang.org/x/tools/go/ssa"
-	"golang.org/x/tools/go/ssa/ssautil"
-	"golang.org/x/tools/go/cfg"
-	"golang.org/x/tools/go/callgraph/vta"
-	"golang.org/x/tools/go/callgraph/cha"
-	"golang.org/x/tools/go/types/typeutil"
+	"os"
+	"os/exec"
+	"path/filepath"
+	"runtime/debug"
+	"sort"
+	"strconv"
+	"strings"
+	"sync"
+	"time"
 )
 
-var _ = cfg.New
-var _ = vta.CallGraph
-var _ = cha.CallGraph
-var _ = typeutil.Callee
-var _ ssa.BuilderMode
-var _ = ssautil.AllFunctions
+const moduleFlag = "github.com/hugelgupf/p9"
+
+var (
+	flagProp     = flag.String("prop", "", "property id (C01..C20) or 'all'")
+	flagTier     = flag.String("tier", "", "quick|thorough (default: $VERIF_TIER or quick)")
+	flagRepo     = flag.String("repo", "/repo", "repository to analyse")
+	flagVerif    = flag.String("verif", "/verif", "verification directory (evidence, known findings)")
+	flagEvidence = flag.String("evidence", "", "evidence file (default <verif>/evidence/<prop>.json)")
+	flagConfig   = flag.String("config", "", "internal: analyse exactly this GOOS/GOARCH and emit raw obligations as JSON on stdout")
+	flagExplain  = flag.String("explain", "", "replay: re-derive the obligation stored in this violation file")
+	flagList     = flag.Bool("list", false, "print every obligation")
+	flagFixture  = flag.String("fixture", "", "internal: analyse a fixture directory instead of the repo (selftest)")
+)
+
+// propFunc analyses one build configuration for one property.
+type propFunc func(r *Run)
+
+type propInfo struct {
+	id          string
+	fn          propFunc
+	needSSA     bool
+	multiConfig bool // thorough tier analyses all four configurations
+	explanation string
+	assumptions []string
+	trusted     []string
+}
+
+var props = map[string]*propInfo{}
+
+func register(p *propInfo) { props[p.id] = p }
+
+var quickConfigs = []string{"linux/amd64"}
+var thoroughConfigs = []string{"linux/amd64", "linux/386", "windows/amd64", "darwin/arm64"}
 
 func main() {
-	cfg := &packages.Config{Dir: "/repo", Mode: packages.LoadAllSyntax, Env: append([]string{}, "GOFLAGS=-mod=readonly", "GOPROXY=off", "GOWORK=off", "GOSUMDB=off", "GOTOOLCHAIN=local", "HOME=/root", "PATH=/usr/local/go/bin:/usr/bin:/bin", "GOCACHE=/root/.cache/go-build")}
-	pkgs, err := packages.Load(cfg, "./p9", "./vecnet", "./linux", "./internal", "./fsimpl/...", "./cmd/...")
-	fmt.Println(len(pkgs), err)
-	for _, p := range pkgs { fmt.Println(p.PkgPath, len(p.Errors), len(p.Syntax)) }
+	flag.Parse()
+	tier := *flagTier
+	if tier == "" {
+		tier = os.Getenv("VERIF_TIER")
+	}
+	if tier != "thorough" {
+		tier = "quick"
+	}
+	seed := 0
+	if s := os.Getenv("VERIF_SEED"); s != "" {
+		if v, err := strconv.Atoi(s); err == nil {
+			seed = v
+		}
+	}
+	if *flagExplain != "" {
+		os.Exit(explain(*flagExplain, tier))
+	}
+	if *flagProp == "" {
+		fmt.Fprintln(os.Stderr, "usage: p9check -prop Cxx [-tier quick|thorough]")
+		os.Exit(2)
+	}
+	if *flagConfig != "" {
+		// Child mode: one configuration, raw JSON on stdout.
+		res := analyseConfig(*flagProp, tier, *flagConfig)
+		enc := json.NewEncoder(os.Stdout)
+		if err := enc.Encode(res); err != nil {
+			fmt.Fprintln(os.Stderr, err)
+			os.Exit(2)
+		}
+		return
+	}
+	ids := []string{*flagProp}
+	if *flagProp == "all" {
+		ids = nil
+		for id := range props {
+			ids = append(ids, id)
+		}
+		sort.Strings(ids)
+	}
+	rc := 0
+	for _, id := range ids {
+		if runProperty(id, tier, seed) != 0 {
+			rc = 1
+		}
+	}
+	os.Exit(rc)
+}
+
+// ConfigResult is what one configuration's analysis yields.
+type ConfigResult struct {
+	Config    string         `json:"config"`
+	Obs       []Oblig        `json:"obligations"`
+	Samples   []any          `json:"samples"`
+	Notes     []string       `json:"notes"`
+	Stats     map[string]int `json:"stats"`
+	Packages  []string       `json:"packages"`
+	LoadError string         `json:"load_error,omitempty"`
+}
+
+func analyseConfig(id, tier, config string) (res *ConfigResult) {
+	res = &ConfigResult{Config: config, Stats: map[string]int{}}
+	p := props[id]
+	if p == nil {
+		res.LoadError = "unknown property " + id
+		return
+	}
+	defer func() {
+		if e := recover(); e != nil {
+			// A panic in the checker is never a pass.
+			res.Obs = append(res.Obs, Oblig{Rule: id + ".internal", Construct: "checker panic", Status: "undecided",
+				Detail: fmt.Sprintf("%v\n%s", e, debug.Stack()), Config: config})
+		}
+	}()
+	l, err := load(*flagRepo, config, *flagFixture)
+	if err != nil {
+		res.LoadError = err.Error()
+		return
+	}
+	r := &Run{Prop: id, Tier: tier, L: l, Config: config, stats: res.Stats}
+	p.fn(r)
+	res.Obs = r.Obs
+	res.Samples = r.Samples
+	res.Notes = r.Notes
+	for _, pk := range l.modulePkgs() {
+		res.Packages = append(res.Packages, pk.PkgPath)
+	}
+	res.Stats["functions_in_module"] = len(l.decls)
+	return
+}
+
+func runProperty(id, tier string, seed int) int {
+	start := time.Now()
+	p := props[id]
+	if p == nil {
+		fmt.Printf("VIOLATION property=%s replay=/dev/null\n", id)
+		fmt.Fprintf(os.Stderr, "unknown property %s\n", id)
+		return 1
+	}
+	configs := quickConfigs
+	if tier == "thorough" && p.multiConfig {
+		configs = thoroughConfigs
+	}
+	results := make([]*ConfigResult, len(configs))
+	var wg sync.WaitGroup
+	for i, c := range configs {
+		if i == 0 {
+			continue
+		}
+		wg.Add(1)
+		go func(i int, c string) {
+			defer wg.Done()
+			results[i] = runChild(id, tier, c)
+		}(i, c)
+	}
+	results[0] = analyseConfig(id, tier, configs[0])
+	wg.Wait()
+
+	kf := loadKnownFindings(filepath.Join(*flagVerif, "known_findings.json"))
+	var all []Oblig
+	for _, res := range results {
+		if res.LoadError != "" {
+			all = append(all, Oblig{Rule: id + ".load", Construct: res.Config, Status: "undecided", Detail: res.LoadError, Config: res.Config})
+		}
+		all = append(all, res.Obs...)
+	}
+	// Merge obligations that are identical across configurations.
+	all = mergeObligations(all)
+
+	violDir := filepath.Join(*flagVerif, "evidence", "violations")
+	os.MkdirAll(violDir, 0o755)
+	// Remove stale violation files of this property.
+	if old, _ := filepath.Glob(filepath.Join(violDir, id+"-*.json")); old != nil {
+		for _, f := range old {
+			os.Remove(f)
+		}
+	}
+	nviol, nknown, ndis := 0, 0, 0
+	perRule := map[string][2]int{}
+	seenKnown := map[string]bool{}
+	for _, o := range all {
+		c := perRule[o.Rule]
+		c[0]++
+		if o.Status == "ok" {
+			c[1]++
+			ndis++
+		}
+		perRule[o.Rule] = c
+		if *flagList {
+			fmt.Printf("  [%s] %s / %s  %s  %s\n", o.Status, o.Rule, o.Construct, o.Pos, firstLine(o.Detail))
+		}
+		if o.Status == "ok" {
+			continue
+		}
+		if k := kf.match(id, o); k != nil {
+			key := o.Rule + "/" + o.Construct
+			if !seenKnown[key] {
+				seenKnown[key] = true
+				fmt.Printf("KNOWN-FINDING: property=%s %s %s: %s\n", id, o.Rule, o.Construct, k.WhatFails)
+			}
+			nknown++
+			continue
+		}
+		nviol++
+		path := filepath.Join(violDir, fmt.Sprintf("%s-%d.json", id, nviol))
+		b, _ := json.MarshalIndent(map[string]any{"property": id, "tier": tier, "obligation": o}, "", " ")
+		os.WriteFile(path, b, 0o644)
+		fmt.Printf("VIOLATION property=%s replay=%s\n", id, path)
+		fmt.Printf("  %s: %s / %s [%s] at %s\n    %s\n", id, o.Rule, o.Construct, o.Status, o.Pos, strings.ReplaceAll(o.Detail, "\n", "\n    "))
+	}
+	// Evidence.
+	evPath := *flagEvidence
+	if evPath == "" {
+		evPath = filepath.Join(*flagVerif, "evidence", id+".json")
+	}
+	rules := map[string]any{}
+	var ruleNames []string
+	for rn := range perRule {
+		ruleNames = append(ruleNames, rn)
+	}
+	sort.Strings(ruleNames)
+	for _, rn := range ruleNames {
+		rules[rn] = map[string]int{"obligations": perRule[rn][0], "discharged": perRule[rn][1]}
+	}
+	var samples []any
+	var notes []string
+	stats := map[string]int{}
+	var pkgs []string
+	for i, res := range results {
+		if i == 0 {
+			samples = append(samples, res.Samples...)
+			pkgs = res.Packages
+		}
+		for _, n := range res.Notes {
+			notes = append(notes, "["+res.Config+"] "+n)
+		}
+		for k, v := range res.Stats {
+			if i == 0 {
+				stats[k] = v
+			} else {
+				stats[res.Config+":"+k] = v
+			}
+		}
+	}
+	// Always show a few actual obligations as samples.
+	nshown := 0
+	lastRule := ""
+	for _, o := range all {
+		if o.Rule != lastRule && nshown < 40 {
+			samples = append(samples, map[string]string{"rule": o.Rule, "construct": o.Construct, "at": o.Pos, "status": o.Status, "detail": firstLine(o.Detail)})
+			nshown++
+			lastRule = o.Rule
+		}
+	}
+	if len(samples) == 0 {
+		samples = append(samples, "no obligations generated")
+	}
+	cmd := fmt.Sprintf("bin/p9check -prop %s -tier %s", id, tier)
+	ev := map[string]any{
+		"property_id": id,
+		"tier":        tier,
+		"seed":        seed,
+		"level":       "other",
+		"coverage": map[string]any{
+			"explanation":        p.explanation,
+			"obligations":        len(all),
+			"discharged":         ndis,
+			"known_findings":     nknown,
+			"rules":              rules,
+			"samples":            samples,
+			"configurations":     configs,
+			"packages_analysed":  pkgs,
+			"stats":              stats,
+			"notes":              notes,
+			"checker_cmd":        cmd,
+			"trusted_base":       append([]string{"go/types, go/cfg, go/ssa (golang.org/x/tools v0.29.0)", "Go memory model and sync/atomic semantics"}, p.trusted...),
+			"exhaustive":         true,
+			"exhaustive_meaning": "every construct matched by the rules in the current source tree is an obligation; none is sampled",
+		},
+		"assumptions": append([]string{"accepted-idiom lists in DESIGN.md section 3; anything else is reported as undecided (fail-closed)"}, p.assumptions...),
+		"wall_s":      time.Since(start).Seconds(),
+		"violations":  nviol,
+	}
+	b, _ := json.MarshalIndent(ev, "", " ")
+	os.MkdirAll(filepath.Dir(evPath), 0o755)
+	if err := os.WriteFile(evPath, b, 0o644); err != nil {
+		fmt.Fprintln(os.Stderr, "cannot write evidence:", err)
+		return 1
+	}
+	fmt.Printf("%s %s: %d obligations, %d discharged, %d known findings, %d violations (%d configuration(s), %.1fs)\n",
+		id, tier, len(all), ndis, nknown, nviol, len(configs), time.Since(start).Seconds())
+	if nviol > 0 {
+		return 1
+	}
+	return 0
+}
+
+func firstLine(s string) string {
+	if i := strings.IndexByte(s, '\n'); i >= 0 {
+		return s[:i]
+	}
+	return s
+}
+
+func runChild(id, tier, config string) *ConfigResult {
+	self, err := os.Executable()
+	if err != nil {
+		return &ConfigResult{Config: config, LoadError: err.Error()}
+	}
+	args := []string{"-prop", id, "-tier", tier, "-config", config, "-repo", *flagRepo, "-verif", *flagVerif}
+	cmd := exec.Command(self, args...)
+	cmd.Stderr = os.Stderr
+	out, err := cmd.Output()
+	if err != nil {
+		return &ConfigResult{Config: config, LoadError: "child: " + err.Error()}
+	}
+	res := &ConfigResult{}
+	if err := json.Unmarshal(out, res); err != nil {
+		return &ConfigResult{Config: config, LoadError: "child output: " + err.Error()}
+	}
+	return res
+}
+
+// mergeObligations collapses obligations that have the same rule, construct and
+// status in several configurations into one (listing the configurations).
+func mergeObligations(in []Oblig) []Oblig {
+	idx := map[string]int{}
+	var out []Oblig
+	for _, o := range in {
+		k := o.Rule + "\x00" + o.Construct + "\x00" + o.Status + "\x00" + o.Pos
+		if i, ok := idx[k]; ok {
+			if !strings.Contains(out[i].Config, o.Config) {
+				out[i].Config += "," + o.Config
+			}
+			continue
+		}
+		idx[k] = len(out)
+		out = append(out, o)
+	}
+	sort.SliceStable(out, func(i, j int) bool {
+		if out[i].Rule != out[j].Rule {
+			return ruleLess(out[i].Rule, out[j].Rule)
+		}
+		return false
+	})
+	return out
+}
+
+func ruleLess(a, b string) bool {
+	// C07.r10 after C07.r9
+	pa, na := splitRule(a)
+	pb, nb := splitRule(b)
+	if pa != pb {
+		return pa < pb
+	}
+	return na < nb
+}
+
+func splitRule(r string) (string, int) {
+	i := strings.LastIndex(r, ".r")
+	if i < 0 {
+		return r, -1
+	}
+	n, err := strconv.Atoi(r[i+2:])
+	if err != nil {
+		return r, -1
+	}
+	return r[:i], n
+}
+
+func explain(path, tier string) int {
+	b, err := os.ReadFile(path)
+	if err != nil {
+		fmt.Fprintln(os.Stderr, err)
+		return 2
+	}
+	var v struct {
+		Property   string `json:"property"`
+		Obligation Oblig  `json:"obligation"`
+	}
+	if err := json.Unmarshal(b, &v); err != nil {
+		fmt.Fprintln(os.Stderr, err)
+		return 2
+	}
+	fmt.Printf("replaying %s / %s for property %s against the current tree\n", v.Obligation.Rule, v.Obligation.Construct, v.Property)
+	p := props[v.Property]
+	if p == nil {
+		return 2
+	}
+	configs := []string{"linux/amd64"}
+	if v.Obligation.Config != "" {
+		configs = strings.Split(v.Obligation.Config, ",")[:1]
+	}
+	res := analyseConfig(v.Property, tier, configs[0])
+	found := false
+	for _, o := range res.Obs {
+		if o.Rule == v.Obligation.Rule && o.Construct == v.Obligation.Construct {
+			found = true
+			fmt.Printf("[%s] %s / %s at %s\n  %s\n", o.Status, o.Rule, o.Construct, o.Pos, strings.ReplaceAll(o.Detail, "\n", "\n  "))
+			if o.Status != "ok" {
+				fmt.Printf("VIOLATION property=%s replay=%s\n", v.Property, path)
+				return 1
+			}
+		}
+	}
+	if !found {
+		fmt.Println("obligation no longer generated from the current tree")
+	}
+	return 0
 }
